@@ -339,6 +339,17 @@ type yieldingManager struct {
 	usermanager.UserManager
 }
 
+func (y yieldingManager) AuthenticateUser(uid []byte) (int64, int64, error) {
+	for i := 0; i < 8; i++ {
+		runtime.Gosched()
+	}
+	a, b, err := y.UserManager.AuthenticateUser(uid)
+	for i := 0; i < 8; i++ {
+		runtime.Gosched()
+	}
+	return a, b, err
+}
+
 func (y yieldingManager) AuthoriseNewSession(uid []byte, a usermanager.AuthorisationInfo) error {
 	for i := 0; i < 8; i++ {
 		runtime.Gosched()
@@ -383,6 +394,17 @@ func TestVerif_C15(t *testing.T) {
 				g.sta.Panel.Manager.WriteUserInfo(usermanager.UserInfo{UID: run.uids[u], SessionsCap: usermanager.JustInt32(int32(caps[u])), UpRate: usermanager.JustInt64(1 << 30), DownRate: usermanager.JustInt64(1 << 30),
 					UpCredit: usermanager.JustInt64(1 << 40), DownCredit: usermanager.JustInt64(1 << 40), ExpiryTime: usermanager.JustInt64(time.Now().Unix() + 1e7)})
 				run.record(62, c15In{Op: "setcap", UID: u, Val: caps[u]}, run.clock.Add(1), c15Out{}, run.clock.Add(1))
+			}
+			// in every third history the very first handshakes of a user arrive together while the user is
+			// not active yet (its record in the panel is created by whichever comes first)
+			if i%3 == 0 {
+				u := uint32(rng.IntN(nu))
+				var reqs [][2]uint32
+				for k := 0; k < 2+rng.IntN(7); k++ {
+					reqs = append(reqs, [2]uint32{u, uint32(2000 + k%(1+rng.IntN(4)))})
+				}
+				run.burst(reqs, transport, false)
+				r.Count("first_contact_bursts", 1)
 			}
 			// anchor session per user so that the user's last session never closes during the history
 			for u := 0; u < nu; u++ {
